@@ -1,11 +1,13 @@
 import AcraModel.Envelope.Masking
+import AcraModel.Envelope.MaskLemmas
+import AcraModel.Props.C01
 /-!
 # C11 — masked columns show only the allowed window to clients that cannot decrypt
 
 Property theorems only. Model: `AcraModel/Envelope/Masking.lean` (on top of the detector model).
 -/
 namespace AcraModel.Props.C11
-open AcraModel AcraModel.Envelope
+open AcraModel AcraModel.Envelope AcraModel.Props.C01
 
 /-- **Values not longer than the window are protected in full**: when the configured clear window
 would cover the whole value, the whole value goes through `protect` – nothing stays in clear. -/
@@ -38,5 +40,404 @@ theorem mask_write_right (c : CryptoOps) (kv : KeyView) (cfg : MaskCfg) (d rnd e
   unfold maskWrite
   rw [if_neg hp, if_neg (by omega), if_neg (by simp [hl]), he]
   rfl
+
+/-! ## the parts of a masked value
+
+`hiddenPart cfg v` / `windowPart cfg v` (in `Envelope/MaskLemmas.lean`) are the part of `v` that is
+stored protected and the part that stays in clear: for a value longer than the window `cfg.k` the
+window is the first (`left`) resp. last `cfg.k` bytes and the hidden part is the rest; for a value not
+longer than the window everything is hidden and the window is empty. `joinSides cfg w x` puts `x` in
+the place of the hidden part: `w ++ x` for the left window, `x ++ w` for the right one.
+`afterContainer cfg w` are the bytes that follow the container in the stored value (`[]` resp. `w`):
+they matter because `ExtractSerializedContainer` hands the callbacks the whole rest of the buffer. -/
+
+/-- A clear window is *clean* when it contains neither the container tag byte `%` (0x25) nor the
+AcraStruct/AcraBlock tag byte `"` (0x22). The stored form of a masked value is `window | container`
+or `container | window` in ONE column value, and the reader finds the container by scanning for tag
+bytes (in-band signalling). A window that contains tag material can therefore be mis-recognised:
+e.g. a window that starts with `%%%`, a length and an envelope id is itself taken for a container,
+fails to decrypt, and is replaced – together with as many following bytes as it declares – by the
+masking pattern, for the owner too. This is inherent in the format, not a defect of the scan; the
+theorems below are about clean windows. (Only the `%` half is actually used by the proofs: once the
+real container has been recognised the "envelope seen" flag is set and the legacy scans for bare
+AcraStructs/AcraBlocks – the only place where `"` matters – do not run. The lemmas
+`maskRead_owner` / `maskRead_other` / `maskRead_nonOwner` in `Envelope/MaskLemmas.lean` are stated
+with the `%` half only.) -/
+def cleanWindow (w : Bytes) : Prop := ∀ x ∈ w, x ≠ 37 ∧ x ≠ 34
+
+instance (w : Bytes) : Decidable (cleanWindow w) := inferInstanceAs (Decidable (∀ x ∈ w, x ≠ 37 ∧ x ≠ 34))
+
+theorem cleanWindow_noPct {w : Bytes} (h : cleanWindow w) : ∀ x ∈ w, x ≠ 37 := fun x hx => (h x hx).1
+
+/-- window and hidden part are a partition of the value -/
+theorem mask_parts (cfg : MaskCfg) (v : Bytes) : joinSides cfg (windowPart cfg v) (hiddenPart cfg v) = v ∧
+    (windowPart cfg v).length ≤ cfg.k ∧
+    (cfg.k < v.length → windowPart cfg v = (if cfg.left then v.take cfg.k else v.drop (v.length - cfg.k)) ∧
+      (windowPart cfg v).length = cfg.k) ∧
+    (v.length ≤ cfg.k → windowPart cfg v = [] ∧ hiddenPart cfg v = v) := by
+  refine ⟨joinSides_parts cfg v, windowPart_length_le cfg v, ?_, fun h => ⟨windowPart_short cfg v h, hiddenPart_short cfg v h⟩⟩
+  intro hk
+  unfold windowPart
+  rw [if_neg (by omega)]
+  refine ⟨rfl, ?_⟩
+  split
+  · rw [List.length_take]; omega
+  · rw [List.length_drop]; omega
+
+/-- **Stored form**: on a masked column a successful write stores the clear window joined with exactly
+what `protect` made of the hidden part, on the configured side (this subsumes `mask_write_left`,
+`mask_write_right` and `mask_short_full`). -/
+theorem mask_write_form (c : CryptoOps) (kv : KeyView) (cfg : MaskCfg) (v rnd stored : Bytes)
+    (hpat : cfg.pattern ≠ []) (hw : maskWrite c kv cfg v rnd = .ok stored) :
+    ∃ p, protect c kv cfg.kind (hiddenPart cfg v) rnd = .ok p ∧ stored = joinSides cfg (windowPart cfg v) p :=
+  maskWrite_ok hpat hw
+
+/-! ## 1. the owning client receives the complete original value -/
+
+/-- **The owner reads the original value** – both window sides, both envelope kinds, values longer
+or not longer than the window. `v` is written by a client with key view `kvW` to a masked column
+(`cfg.pattern ≠ []`) and read by a client with key view `kvR` through the SQL proxy's column
+processor (`maskRead`: compatibility wrapper first, then the decrypt handler over the masking
+processor). Hypotheses: the clear window is clean; the hidden part does not already look like a
+protected value (`protect` would pass it through unchanged and it would be stored in clear); the
+round-trip hypotheses of C01 for the hidden part hold for what `protect` returned – i.e. the
+reader's key list contains the writer's key, possibly after rotations, and earlier keys do not
+accidentally open the value; and the hidden plaintext is not literally equal to the container followed
+by the rest of the stored value (the masking processor treats "decrypted to itself" as "not
+decrypted"; under `SealLen` the container is at least 150 bytes longer than the plaintext, for the
+AcraStruct kind the round-trip hypotheses include `SealLen`). Then the reader receives exactly `v`. -/
+theorem mask_owner (c : CryptoOps) (kvW kvR : KeyView) (cfg : MaskCfg) (v rnd stored : Bytes)
+    (hpat : cfg.pattern ≠ [])
+    (hclean : cleanWindow (windowPart cfg v))
+    (hnm : matchKind cfg.kind (hiddenPart cfg v) = false) (hnr : registryMatch (hiddenPart cfg v) = false)
+    (hrt : ∀ p, protect c kvW cfg.kind (hiddenPart cfg v) rnd = .ok p →
+      RoundTripHyps c cfg.kind kvW kvR (hiddenPart cfg v) rnd p ∧
+      hiddenPart cfg v ≠ p ++ afterContainer cfg (windowPart cfg v))
+    (hw : maskWrite c kvW cfg v rnd = .ok stored) :
+    maskRead c kvR cfg stored = .ok v true := by
+  obtain ⟨p, hp, rfl⟩ := maskWrite_ok hpat hw
+  obtain ⟨h, hne⟩ := hrt p hp
+  obtain ⟨e, rfl, he, hlen, hproc⟩ := protect_roundtrip_facts c cfg.kind kvW kvR _ rnd p h hnm hnr hp
+  rw [maskRead_owner c kvR cfg _ e _ hpat (cleanWindow_noPct hclean) he hlen (hproc _) hne, joinSides_parts]
+
+/-! ## 2. everybody else receives the window and the pattern, nothing more -/
+
+/-- **A reader who cannot decrypt receives exactly the clear window joined with the masking pattern in
+place of the protected part** – no byte of the container (ciphertext, wrapped keys, header) and no
+hidden plaintext byte. `NonOwnerHyps` (in `Envelope/MaskLemmas.lean`): the hidden part does not
+already look protected; `protect` produced the container `p`; the reader's `RegistryHandler.Process`
+does not succeed on `p` followed by the rest of the stored value (no keys, or keys that fail); the
+pattern is not literally that container (automatic for patterns of at most 12 bytes). No crypto law is
+needed. For a value not longer than the window the window is empty and the reader sees the pattern
+alone (`mask_short_other`). -/
+theorem mask_other (c : CryptoOps) (kvW kvR : KeyView) (cfg : MaskCfg) (v rnd p stored : Bytes)
+    (hpat : cfg.pattern ≠ [])
+    (hclean : cleanWindow (windowPart cfg v))
+    (h : NonOwnerHyps c kvW kvR cfg v rnd p)
+    (hw : maskWrite c kvW cfg v rnd = .ok stored) :
+    maskRead c kvR cfg stored = .ok (joinSides cfg (windowPart cfg v) cfg.pattern) true :=
+  maskRead_nonOwner c kvW kvR cfg v rnd p stored hpat (cleanWindow_noPct hclean) h hw
+
+/-- A reader whose key store holds no keys at all is a non-owner, whatever the crypto back end: it
+receives window and pattern (no assumption about the cryptography is needed for confidentiality
+towards a key-less reader – the bytes it gets do not depend on the container). -/
+theorem mask_other_no_keys (c : CryptoOps) (kvW kvR : KeyView) (cfg : MaskCfg) (v rnd p stored : Bytes)
+    (hpat : cfg.pattern ≠ []) (hclean : cleanWindow (windowPart cfg v))
+    (hnm : matchKind cfg.kind (hiddenPart cfg v) = false) (hnr : registryMatch (hiddenPart cfg v) = false)
+    (hp : protect c kvW cfg.kind (hiddenPart cfg v) rnd = .ok p) (hplen : p.length < 2^63)
+    (hpc : cfg.pattern.length ≤ 12 ∨ cfg.pattern ≠ p ++ afterContainer cfg (windowPart cfg v))
+    (hR : kvR.privs = none ∧ kvR.syms = none)
+    (hw : maskWrite c kvW cfg v rnd = .ok stored) :
+    maskRead c kvR cfg stored = .ok (joinSides cfg (windowPart cfg v) cfg.pattern) true :=
+  mask_other c kvW kvR cfg v rnd p stored hpat hclean
+    (nonOwner_of_no_keys c kvW kvR cfg v rnd p hnm hnr hp hplen hpc hR) hw
+
+/-- Under key commitment (`SealLaws` + `SealCommit`; deliberately no length law, see `Crypto/Ops.lean`)
+a reader who has symmetric keys, but not the writer's, is a non-owner of an AcraBlock-masked value:
+"other keys fail" is a theorem here, not a hypothesis. -/
+theorem mask_other_commit (c : CryptoOps) (hs : SealLaws c) (hcm : SealCommit c) (kvW kvR : KeyView) (cfg : MaskCfg)
+    (v rnd p stored key : Bytes) (hkind : cfg.kind = .block)
+    (hpat : cfg.pattern ≠ []) (hclean : cleanWindow (windowPart cfg v))
+    (hW : kvW.sym = some key) (hkid : (keyId c key []).length = 2)
+    (hEncKey : ∀ encKey, c.enc key [] (rnd.take 32) ((rnd.drop 44).take 12) = some encKey → encKey.length < 65536)
+    (hnm : matchKind cfg.kind (hiddenPart cfg v) = false) (hnr : registryMatch (hiddenPart cfg v) = false)
+    (hp : protect c kvW cfg.kind (hiddenPart cfg v) rnd = .ok p) (hplen : p.length < 2^63)
+    (hpc : cfg.pattern.length ≤ 12 ∨ cfg.pattern ≠ p ++ afterContainer cfg (windowPart cfg v))
+    (hdisj : ∀ ks, kvR.syms = some ks → key ∉ ks)
+    (hw : maskWrite c kvW cfg v rnd = .ok stored) :
+    maskRead c kvR cfg stored = .ok (joinSides cfg (windowPart cfg v) cfg.pattern) true :=
+  mask_other c kvW kvR cfg v rnd p stored hpat hclean
+    (nonOwner_of_commit c hs hcm kvW kvR cfg v rnd p key hkind hW hkid hEncKey hnm hnr hp hplen hpc hdisj) hw
+
+/-- Left window, value longer than the window: the non-owner receives the first `k` bytes followed by
+the pattern. -/
+theorem mask_other_left (c : CryptoOps) (kvW kvR : KeyView) (cfg : MaskCfg) (v rnd p stored : Bytes)
+    (hpat : cfg.pattern ≠ []) (hk : cfg.k < v.length) (hl : cfg.left = true)
+    (hclean : cleanWindow (v.take cfg.k))
+    (h : NonOwnerHyps c kvW kvR cfg v rnd p)
+    (hw : maskWrite c kvW cfg v rnd = .ok stored) :
+    maskRead c kvR cfg stored = .ok (v.take cfg.k ++ cfg.pattern) true := by
+  have hwp : windowPart cfg v = v.take cfg.k := by
+    unfold windowPart; rw [if_neg (by omega), if_pos hl]
+  have := mask_other c kvW kvR cfg v rnd p stored hpat (by rw [hwp]; exact hclean) h hw
+  rw [this, hwp]
+  unfold joinSides
+  rw [if_pos hl]
+
+/-- Right window, value longer than the window: the non-owner receives the pattern followed by the
+last `k` bytes. -/
+theorem mask_other_right (c : CryptoOps) (kvW kvR : KeyView) (cfg : MaskCfg) (v rnd p stored : Bytes)
+    (hpat : cfg.pattern ≠ []) (hk : cfg.k < v.length) (hl : cfg.left = false)
+    (hclean : cleanWindow (v.drop (v.length - cfg.k)))
+    (h : NonOwnerHyps c kvW kvR cfg v rnd p)
+    (hw : maskWrite c kvW cfg v rnd = .ok stored) :
+    maskRead c kvR cfg stored = .ok (cfg.pattern ++ v.drop (v.length - cfg.k)) true := by
+  have hwp : windowPart cfg v = v.drop (v.length - cfg.k) := by
+    unfold windowPart; rw [if_neg (by omega), if_neg (by simp [hl])]
+  have := mask_other c kvW kvR cfg v rnd p stored hpat (by rw [hwp]; exact hclean) h hw
+  rw [this, hwp]
+  unfold joinSides
+  rw [if_neg (by simp [hl])]
+
+/-! ## 3. non-interference -/
+
+/-- **What a non-owner sees is a function of (window, pattern) only.** Two values with the same clear
+window stored in the same masked column – by any writers, with arbitrary different hidden parts and
+arbitrary randomness, hence with completely different containers – are indistinguishable for a
+reader who can open neither: `maskRead` returns the same result for both. This is the formal content
+of "never any byte of the ciphertext and never a hidden plaintext byte". -/
+theorem mask_noninterference (c : CryptoOps) (kvR : KeyView) (cfg : MaskCfg)
+    (kvW₁ kvW₂ : KeyView) (v₁ v₂ rnd₁ rnd₂ p₁ p₂ stored₁ stored₂ : Bytes)
+    (hpat : cfg.pattern ≠ [])
+    (hwin : windowPart cfg v₁ = windowPart cfg v₂) (hclean : cleanWindow (windowPart cfg v₁))
+    (h₁ : NonOwnerHyps c kvW₁ kvR cfg v₁ rnd₁ p₁) (hw₁ : maskWrite c kvW₁ cfg v₁ rnd₁ = .ok stored₁)
+    (h₂ : NonOwnerHyps c kvW₂ kvR cfg v₂ rnd₂ p₂) (hw₂ : maskWrite c kvW₂ cfg v₂ rnd₂ = .ok stored₂) :
+    maskRead c kvR cfg stored₁ = maskRead c kvR cfg stored₂ := by
+  rw [mask_other c kvW₁ kvR cfg v₁ rnd₁ p₁ stored₁ hpat hclean h₁ hw₁,
+    mask_other c kvW₂ kvR cfg v₂ rnd₂ p₂ stored₂ hpat (by rw [← hwin]; exact hclean) h₂ hw₂, hwin]
+
+/-! ## 4. values not longer than the window -/
+
+/-- **A value not longer than the window is hidden completely**: a non-owner receives exactly the
+masking pattern (see `mask_short_full` for the write side: the whole value goes through `protect`). -/
+theorem mask_short_other (c : CryptoOps) (kvW kvR : KeyView) (cfg : MaskCfg) (v rnd p stored : Bytes)
+    (hpat : cfg.pattern ≠ []) (hk : v.length ≤ cfg.k)
+    (h : NonOwnerHyps c kvW kvR cfg v rnd p)
+    (hw : maskWrite c kvW cfg v rnd = .ok stored) :
+    maskRead c kvR cfg stored = .ok cfg.pattern true := by
+  have hwp := windowPart_short cfg v hk
+  have := mask_other c kvW kvR cfg v rnd p stored hpat (by rw [hwp]; intro x hx; cases hx) h hw
+  rw [this, hwp]
+  unfold joinSides
+  split <;> simp
+
+/-! ## 5. termination, no panic -/
+
+/-- **Reading a masked column never panics** (and terminates: `maskRead` is a total function built
+from the well-founded scans of `Detector.lean`), for every crypto back end, key-store answer,
+masking setting and stored value (shorter than `2^63` bytes – every Go slice is, see C03). -/
+theorem maskRead_no_panic :
+    ∀ (c : CryptoOps) (kv : KeyView) (cfg : MaskCfg) (d : Bytes), d.length < 2^63 → maskRead c kv cfg d ≠ .panic :=
+  maskRead_ne_panic
+
+/-- the name used in the property list -/
+theorem mask_terminates :
+    ∀ (c : CryptoOps) (kv : KeyView) (cfg : MaskCfg) (d : Bytes), d.length < 2^63 → maskRead c kv cfg d ≠ .panic :=
+  maskRead_ne_panic
+
+/-- **Writing to a masked column never panics**, whatever the value (including values that look like
+envelopes already) and the random stream. -/
+theorem maskWrite_no_panic :
+    ∀ (c : CryptoOps) (kv : KeyView) (cfg : MaskCfg) (d rnd : Bytes), maskWrite c kv cfg d rnd ≠ .panic :=
+  maskWrite_ne_panic
+
+/-- Reading a masked column never fails the query either: neither the decrypt handler nor the masking
+processor ever returns an error to the column scan. -/
+theorem maskRead_never_fatal :
+    ∀ (c : CryptoOps) (kv : KeyView) (cfg : MaskCfg) (d : Bytes), maskRead c kv cfg d ≠ .fatal :=
+  maskRead_ne_fatal
+
+/-! ## 6. non-vacuity: every hypothesis bundle above is met by a concrete instance -/
+
+/-- LEFT window, AcraBlock kind, stand-in back end: "hello!" with a clear window of 2 bytes and pattern
+`***`; written with key `[1,2,3]`; the owner reads with the rotated key list `[[4,5],[1,2,3],[1,2,9]]`
+and gets `hello!`; a reader without keys gets `he***`. -/
+example :
+    let cfg : MaskCfg := ⟨[42,42,42], 2, true, .block⟩
+    let v : Bytes := [104,101,108,108,111,33]
+    let kvW : KeyView := ⟨none, none, some [1,2,3], none⟩
+    let kvR : KeyView := ⟨none, none, some [4,5], some ([[4,5]] ++ [1,2,3] :: [[1,2,9]])⟩
+    let kvN : KeyView := ⟨none, none, none, none⟩
+    ∃ stored, maskWrite toyOps kvW cfg v (List.replicate 56 5) = .ok stored ∧
+      maskRead toyOps kvR cfg stored = .ok v true ∧
+      maskRead toyOps kvN cfg stored = .ok [104,101,42,42,42] true := by
+  intro cfg v kvW kvR kvN
+  have hs := toy_sealLaws
+  have hsl := toy_sealLen
+  have hkid := keyId_length toyOps toy_hashLen [1,2,3] []
+  have hhid : hiddenPart cfg v = [108,108,111,33] := by decide
+  have hwin : windowPart cfg v = [104,101] := by decide
+  have hnm : matchKind cfg.kind (hiddenPart cfg v) = false := by rw [hhid]; decide
+  have hnr : registryMatch (hiddenPart cfg v) = false := by rw [hhid]; decide
+  obtain ⟨p, hp⟩ := protect_block_total toyOps hs kvW [1,2,3] (hiddenPart cfg v) (List.replicate 56 5) rfl (by decide)
+    (by rw [hhid]; decide) (by rw [hhid]; decide) (by decide)
+  obtain ⟨hpl, _⟩ := protect_block_length toyOps hs hsl kvW [1,2,3] _ _ p rfl hkid hnm hnr hp
+  have hpl' : p.length = 154 := by rw [hpl, hhid]; rfl
+  have hw : maskWrite toyOps kvW cfg v (List.replicate 56 5) = .ok (joinSides cfg (windowPart cfg v) p) := by
+    rw [maskWrite_eq toyOps kvW cfg v _ (by decide), hp]; rfl
+  have hclean : cleanWindow (windowPart cfg v) := by rw [hwin]; decide
+  refine ⟨_, hw, ?_, ?_⟩
+  · refine mask_owner toyOps kvW kvR cfg v _ _ (by decide) hclean hnm hnr ?_ hw
+    intro p' hp'
+    rw [hp] at hp'; cases hp'
+    refine ⟨⟨hs, [1,2,3], [[4,5]], [[1,2,9]], hkid, rfl, rfl, ?_, ?_, by rw [hpl']; decide⟩, ?_⟩
+    · intro k' hk' encKey _ hid
+      simp only [List.mem_singleton] at hk'
+      subst hk'
+      exact absurd hid (by decide)
+    · intro ek h
+      rw [hsl.enc_len _ _ _ _ _ h]; decide
+    · intro h
+      have := congrArg List.length h
+      rw [List.length_append, hpl', hhid] at this
+      simp at this
+      omega
+  · have := mask_other toyOps kvW kvN cfg v _ p _ (by decide) hclean
+      (nonOwner_of_no_keys toyOps kvW kvN cfg v _ p hnm hnr hp (by rw [hpl']; decide) (Or.inl (by decide)) ⟨rfl, rfl⟩) hw
+    rw [this, hwin]
+    rfl
+/-- RIGHT window, AcraStruct kind, executable stand-in back end (`H` = SHA-256): seven bytes with a clear
+window of the last 3 and pattern `*`; the owner (matching private key first in the list, another key
+after it) reads the value back; a reader without keys gets `*` followed by the window. -/
+example :
+    let priv := shimOps.privOfSeed (List.replicate 32 1)
+    let other := shimOps.privOfSeed (List.replicate 32 2)
+    let cfg : MaskCfg := ⟨[42], 3, false, .struct⟩
+    let v : Bytes := [1,2,3,4,5,6,7]
+    let kvW : KeyView := ⟨some (shimOps.pubOf priv), none, none, none⟩
+    let kvR : KeyView := ⟨none, some ([] ++ priv :: [other]), none, none⟩
+    let kvN : KeyView := ⟨none, none, none, none⟩
+    ∃ stored, maskWrite shimOps kvW cfg v (List.replicate 88 7) = .ok stored ∧
+      maskRead shimOps kvR cfg stored = .ok v true ∧
+      maskRead shimOps kvN cfg stored = .ok [42,5,6,7] true := by
+  intro priv other cfg v kvW kvR kvN
+  have hpriv : shimOps.validPriv priv = true := shim_keygenLaws.valid_seed _ (by decide)
+  have hhid : hiddenPart cfg v = [1,2,3,4] := by decide
+  have hwin : windowPart cfg v = [5,6,7] := by decide
+  have hnm : matchKind cfg.kind (hiddenPart cfg v) = false := by rw [hhid]; decide
+  have hnr : registryMatch (hiddenPart cfg v) = false := by rw [hhid]; decide
+  obtain ⟨p, hp⟩ := protect_struct_total shimOps shim_sealLaws shim_msgLaws shim_keygenLaws kvW priv (hiddenPart cfg v)
+    (List.replicate 88 7) hpriv rfl (by rw [hhid]; decide) (by rw [hhid]; decide) (by decide)
+  obtain ⟨hpl, _⟩ := protect_struct_length shimOps shim_sealLaws shim_sealLen shim_msgLen shim_keygenLaws kvW _ _ p hnm hnr hp
+  have hpl' : p.length = 205 := by rw [hpl, hhid]; rfl
+  have hw : maskWrite shimOps kvW cfg v (List.replicate 88 7) = .ok (joinSides cfg (windowPart cfg v) p) := by
+    rw [maskWrite_eq shimOps kvW cfg v _ (by decide), hp]; rfl
+  have hclean : cleanWindow (windowPart cfg v) := by rw [hwin]; decide
+  refine ⟨_, hw, ?_, ?_⟩
+  · refine mask_owner shimOps kvW kvR cfg v _ _ (by decide) hclean hnm hnr ?_ hw
+    intro p' hp'
+    rw [hp] at hp'; cases hp'
+    refine ⟨⟨shim_sealLaws, shim_sealLen, shim_msgLaws, shim_msgLen, shim_keygenLaws, priv, [], [other], hpriv, rfl, rfl, by simp⟩, ?_⟩
+    intro h
+    have := congrArg List.length h
+    rw [List.length_append, hpl', hhid] at this
+    simp at this
+    omega
+  · have := mask_other shimOps kvW kvN cfg v _ p _ (by decide) hclean
+      (nonOwner_of_no_keys shimOps kvW kvN cfg v _ p hnm hnr hp (by rw [hpl']; decide) (Or.inl (by decide)) ⟨rfl, rfl⟩) hw
+    rw [this, hwin]
+    rfl
+
+/-- Key commitment (`boxOps`: `SealLaws` + `SealCommit`): a reader who HAS keys, but not the writer's, is a
+non-owner (`nonOwner_of_commit`) and sees window and pattern; here the left window `[7]` of `[7,9,9]`. -/
+example :
+    let cfg : MaskCfg := ⟨[42], 1, true, .block⟩
+    let v : Bytes := [7,9,9]
+    let kvW : KeyView := ⟨none, none, some [1,2,3], none⟩
+    let kvO : KeyView := ⟨none, none, some [9,9], some [[9,9],[1,2,4]]⟩
+    ∃ stored, maskWrite boxOps kvW cfg v (List.replicate 56 5) = .ok stored ∧
+      maskRead boxOps kvO cfg stored = .ok [7,42] true := by
+  intro cfg v kvW kvO
+  have hs := Box.sealLaws
+  have hhid : hiddenPart cfg v = [9,9] := by decide
+  have hwin : windowPart cfg v = [7] := by decide
+  have hnm : matchKind cfg.kind (hiddenPart cfg v) = false := by rw [hhid]; decide
+  have hnr : registryMatch (hiddenPart cfg v) = false := by rw [hhid]; decide
+  have hkid : (keyId boxOps [1,2,3] []).length = 2 := by decide
+  have e1 : boxOps.enc ((List.replicate 56 5).take 32) [] [9,9] (((List.replicate 56 (5:UInt8)).drop 32).take 12) =
+      some (Box.esc (List.replicate 32 5) ++ (Box.esc [] ++ (Box.esc (List.replicate 12 5) ++ [9,9]))) := by decide
+  have e2 : boxOps.enc [1,2,3] [] ((List.replicate 56 5).take 32) (((List.replicate 56 (5:UInt8)).drop 44).take 12) =
+      some (Box.esc [1,2,3] ++ (Box.esc [] ++ (Box.esc (List.replicate 12 5) ++ List.replicate 32 5))) := by decide
+  have hek : ∀ encKey, boxOps.enc [1,2,3] [] ((List.replicate 56 5).take 32) (((List.replicate 56 (5:UInt8)).drop 44).take 12) = some encKey →
+      encKey.length < 65536 := by
+    intro encKey h
+    rw [e2] at h
+    cases h
+    decide
+  obtain ⟨p, hp⟩ := protect_block_total boxOps hs kvW [1,2,3] (hiddenPart cfg v) (List.replicate 56 5) rfl (by decide)
+    (by rw [hhid]; decide) (by rw [hhid]; decide) (by decide)
+  have hpl : p.length < 2^63 := by
+    obtain ⟨e, he, _, rfl⟩ := c01_protect_ok hp hnm hnr
+    obtain ⟨key', hk', hcb⟩ := c01_encryptKind_block he hnm
+    cases hk'
+    rw [hhid] at hcb
+    obtain ⟨encData, encKey, h1, h2, rfl⟩ := c01_createBlock_ok hcb
+    rw [e1] at h1; rw [e2] at h2
+    cases h1; cases h2
+    rw [c01_serBytes_length, c01_buildBlock_length _ _ _ hkid]
+    decide
+  have hw : maskWrite boxOps kvW cfg v (List.replicate 56 5) = .ok (joinSides cfg (windowPart cfg v) p) := by
+    rw [maskWrite_eq boxOps kvW cfg v _ (by decide), hp]; rfl
+  refine ⟨_, hw, ?_⟩
+  have := mask_other boxOps kvW kvO cfg v _ p _ (by decide) (by rw [hwin]; decide)
+    (nonOwner_of_commit boxOps hs Box.sealCommit kvW kvO cfg v _ p [1,2,3] rfl rfl hkid hek hnm hnr hp hpl
+      (Or.inl (by decide)) (by intro ks hks; cases hks; decide)) hw
+  rw [this, hwin]
+  rfl
+
+/-- Non-interference and the short case, stand-in back end: `he|llo!` and `he|y` (same window `he`,
+different hidden parts, different writers' randomness) are indistinguishable for a reader without
+keys; the one-byte value `h` (not longer than the window) is shown as the pattern alone. -/
+example :
+    let cfg : MaskCfg := ⟨[42,42,42], 2, true, .block⟩
+    let kvW : KeyView := ⟨none, none, some [1,2,3], none⟩
+    let kvN : KeyView := ⟨none, none, none, none⟩
+    ∃ s₁ s₂ s₃, maskWrite toyOps kvW cfg [104,101,108,108,111,33] (List.replicate 56 5) = .ok s₁ ∧
+      maskWrite toyOps kvW cfg [104,101,121] (List.replicate 56 6) = .ok s₂ ∧
+      maskWrite toyOps kvW cfg [104] (List.replicate 56 7) = .ok s₃ ∧
+      maskRead toyOps kvN cfg s₁ = maskRead toyOps kvN cfg s₂ ∧ maskRead toyOps kvN cfg s₃ = .ok [42,42,42] true := by
+  intro cfg kvW kvN
+  have hs := toy_sealLaws
+  have hsl := toy_sealLen
+  have hkid := keyId_length toyOps toy_hashLen [1,2,3] []
+  have mk : ∀ (v rnd : Bytes), matchKind .block (hiddenPart cfg v) = false → registryMatch (hiddenPart cfg v) = false →
+      hiddenPart cfg v ≠ [] → (hiddenPart cfg v).length < 100 → 56 ≤ rnd.length →
+      ∃ p, NonOwnerHyps toyOps kvW kvN cfg v rnd p ∧
+        maskWrite toyOps kvW cfg v rnd = .ok (joinSides cfg (windowPart cfg v) p) := by
+    intro v rnd hnm hnr hne hlen hr
+    obtain ⟨p, hp⟩ := protect_block_total toyOps hs kvW [1,2,3] (hiddenPart cfg v) rnd rfl (by decide) hne
+      (by have : maxMsgLen = 2^32 := rfl; omega) hr
+    obtain ⟨hpl, _⟩ := protect_block_length toyOps hs hsl kvW [1,2,3] _ _ p rfl hkid hnm hnr hp
+    refine ⟨p, nonOwner_of_no_keys toyOps kvW kvN cfg v rnd p hnm hnr hp (by omega) (Or.inl (by decide)) ⟨rfl, rfl⟩, ?_⟩
+    rw [maskWrite_eq toyOps kvW cfg v _ (by decide), hp]; rfl
+  obtain ⟨p₁, h₁, w₁⟩ := mk [104,101,108,108,111,33] (List.replicate 56 5) (by decide) (by decide) (by decide) (by decide) (by decide)
+  obtain ⟨p₂, h₂, w₂⟩ := mk [104,101,121] (List.replicate 56 6) (by decide) (by decide) (by decide) (by decide) (by decide)
+  obtain ⟨p₃, h₃, w₃⟩ := mk [104] (List.replicate 56 7) (by decide) (by decide) (by decide) (by decide) (by decide)
+  refine ⟨_, _, _, w₁, w₂, w₃, ?_, ?_⟩
+  · exact mask_noninterference toyOps kvN cfg kvW kvW _ _ _ _ p₁ p₂ _ _ (by decide) (by decide) (by decide) h₁ w₁ h₂ w₂
+  · exact mask_short_other toyOps kvW kvN cfg [104] _ p₃ _ (by decide) (by decide) h₃ w₃
+
+/-- no-panic theorems: both outcomes other than panic occur – a successful write, and a write that
+fails (no key) without panicking -/
+example : (∃ s, maskWrite toyOps ⟨none, none, some [1,2,3], none⟩ ⟨[42], 1, true, .block⟩ [7,9,9] (List.replicate 56 5) = .ok s) ∧
+    maskWrite toyOps ⟨none, none, none, none⟩ ⟨[42], 1, true, .block⟩ [7,9,9] (List.replicate 56 5) = .err := by
+  constructor
+  · obtain ⟨p, hp⟩ := protect_block_total toyOps toy_sealLaws ⟨none, none, some [1,2,3], none⟩ [1,2,3] [9,9] (List.replicate 56 5)
+      rfl (by decide) (by decide) (by decide) (by decide)
+    refine ⟨[7] ++ p, ?_⟩
+    rw [maskWrite_eq _ _ _ _ _ (by decide)]
+    have : hiddenPart ⟨[42], 1, true, .block⟩ [7,9,9] = [9,9] := by decide
+    rw [this, hp]; rfl
+  · decide
 
 end AcraModel.Props.C11
